@@ -158,6 +158,13 @@ def build():
     ], "w")
     cases.append(Case("cond_supports", p, [f32(0.0)], features={"fn", "cond", "supports"}))
 
+    # 17. a combinator applied DIRECTLY to a combinator (two stacked axes in every score), next to another site
+    p = Fn("vmap_of_scan", ["mu", "xs"], [
+        Sample("a", "a", normal, ["mu", "2.0"]),
+        Sample("fo", "w", VmapC(ScanC(step, 2), in_axes=(0, None)), ["o.stack([a, 0.0 - a])", "xs"]),
+    ], "o.sum(fo[0])")
+    cases.append(Case("vmap_of_scan", p, [f32(0.3), A(0.2, 0.3)], features={"fn", "vmap", "scan", "stacked"}))
+
     # ---- C08: axis specifications of the Vmap combinator (tier "c08": only used by vlib/props/C08.py) ----------
     vlane = Fn("vlane", ["m", "s"], [Sample("x", "x", normal, ["o.sum(m)", "s"])], "x * 2.0 + m[0]")
     cases.append(Case("c08_axis1", Fn("c08_axis1", ["M", "s"], [
